@@ -518,6 +518,7 @@ def wiring_obligations(ctx, rule):
     ri = evaluate(repo, init)
     calls = ri.calls
     heap0 = {loc[2]: val for loc, val, _, _ in ri.stores if loc[0] == "a" and loc[1] == SELF}
+    claim_first = None
     # reads of self._nodes after the constructor stored it see the stored term
     nodes_t = ("call", ("a", ri.env.heap.get(("a", SELF, "_nodes"), ("a", SELF, "_nodes")),
                         "values"), (), ())
@@ -538,6 +539,13 @@ def wiring_obligations(ctx, rule):
     if ok:
         ok = calls[i_clear[0]][1].lineno < calls[i_add[0]][1].lineno and \
             _different_loops(init.node, calls[i_clear[0]][1], calls[i_add[0]][1])
+    # a node is CLAIMED (_set_model raises for a node of another model) before anything
+    # of it is edited: a rejected build must leave the other model's nodes untouched
+    claim_first = (len(i_set) == 1 and len(i_clear) == 1 and i_set[0] < i_clear[0])
+    ctx.ob(rule, init, "each node is claimed with _set_model() before its outputs are "
+                       "cleared, so a build that is rejected because a node belongs to "
+                       "another model leaves that node (and the other model) unchanged",
+           claim_first, detail=f"set_model@{i_set} clear@{i_clear}", stmt="claim before edit")
     ctx.ob(rule, init, "all outputs are cleared (and the model registered) for every "
                            "node before input._add_output(node) is called for every input "
                            "of every node", ok,
